@@ -61,7 +61,23 @@ CONFIGS = [
     ("denovo", False, "nanopore", ["--read_group", "read_id:_", "--check_canonical"]),
     ("pacbio-all", True, "pacbio_ccs", ["--transcript_quantification", "all", "--gene_quantification", "all", "--report_novel_unspliced", "true",
                                         "--model_construction_strategy", "sensitive_pacbio", "--count_exons", "--read_group", "read_id:_"]),
+    ("split-locus", True, "nanopore", EXTRA),
 ]
+
+
+def cfg_hook(cfg, then=None):
+    """pre_hook of a configuration (the split-locus configuration scales the region-splitting constants so that the small synthetic
+    genes are processed in several regions, in the main process before any worker is forked), followed by the variant's own hook"""
+    if CONFIGS[cfg][0] != "split-locus":
+        return then
+    from vlib import mix
+    scale = mix.scale_constants(region_len=1024, min_reads=4, bin_size=64)
+
+    def hook():
+        scale()
+        if then is not None:
+            then()
+    return hook
 
 
 def argv_for(cfg, paths, out, threads=1, more=()):
@@ -79,7 +95,7 @@ def base_and_variants(args):
     shutil.rmtree(d, ignore_errors=True)
     paths = syn.materialise(w, d)
     base_out = os.path.join(d, "base")
-    rc = run.run_isoquant(argv_for(cfg, paths, base_out), paths["home"], os.path.join(d, "base.txt"))
+    rc = run.run_isoquant(argv_for(cfg, paths, base_out), paths["home"], os.path.join(d, "base.txt"), pre_hook=cfg_hook(cfg))
     if rc != 0:
         return [("base", [("run", "base run failed rc=%d %s" % (rc, open(os.path.join(d, "base.txt")).read()[-300:]))])], 1
     t0 = run.read_tree(os.path.join(base_out, "OUT"))
@@ -113,7 +129,7 @@ def base_and_variants(args):
                     rank = {x: i for i, x in enumerate(order)}
                     return a, b, sorted(g, key=lambda x: (rank.get(x, len(rank)), x))
                 DP.DatasetProcessor.load_read_info = patched
-        rc = run.run_isoquant(argv_for(cfg, paths, out, threads=threads, more=extra), paths["home"], os.path.join(d, "v.txt"), pre_hook=hook)
+        rc = run.run_isoquant(argv_for(cfg, paths, out, threads=threads, more=extra), paths["home"], os.path.join(d, "v.txt"), pre_hook=cfg_hook(cfg, hook))
         n += 1
         if rc != 0:
             res.append((v, [("run", "exit %d: %s" % (rc, open(os.path.join(d, "v.txt")).read()[-300:]))]))
@@ -135,7 +151,7 @@ def plain_tree(args):
     shutil.rmtree(d, ignore_errors=True)
     paths = syn.materialise(w, d)
     out = os.path.join(d, "out")
-    rc = run.run_isoquant(argv_for(cfg, paths, out), paths["home"], os.path.join(d, "o.txt"))
+    rc = run.run_isoquant(argv_for(cfg, paths, out), paths["home"], os.path.join(d, "o.txt"), pre_hook=cfg_hook(cfg))
     t = run.read_tree(os.path.join(out, "OUT")) if rc == 0 else None
     shutil.rmtree(d, ignore_errors=True)
     return t
@@ -163,7 +179,7 @@ def permset_worker(args):
         def post(code):
             with open(rec_file, "w") as f:
                 json.dump(permset.Controller.record, f)
-        rc = run.run_isoquant(argv_for(cfg, paths, out), paths["home"], os.path.join(d, "o.txt"), pre_hook=pre, post_hook=post)
+        rc = run.run_isoquant(argv_for(cfg, paths, out), paths["home"], os.path.join(d, "o.txt"), pre_hook=cfg_hook(cfg, pre), post_hook=post)
         if rc != 0:
             msg = open(os.path.join(d, "o.txt")).read()[-400:]
             shutil.rmtree(d, ignore_errors=True)
@@ -179,7 +195,7 @@ def permset_worker(args):
 
         def pre(dev=dev):
             permset.Controller.deviation = {k: tuple(pm) for k, pm in dev}
-        rc = run.run_isoquant(argv_for(cfg, paths, out), paths["home"], os.path.join(d, "o.txt"), pre_hook=pre)
+        rc = run.run_isoquant(argv_for(cfg, paths, out), paths["home"], os.path.join(d, "o.txt"), pre_hook=cfg_hook(cfg, pre))
         if rc != 0:
             results.append((dev, [("run", "exit %d: %s" % (rc, open(os.path.join(d, "o.txt")).read()[-300:]))]))
             continue
@@ -291,6 +307,8 @@ def explore_config(ctx, cfg, n_chr, quick, tot):
              (cname, ncp, nperm, "" if quick else " (all single deviations + all pairs of reversals)"))
     # hash-seed sweep through the real CLI (fresh interpreters)
     seeds = list(range(0, (8 if cfg == 0 else 4) if quick else 48))
+    if cname == "split-locus":
+        seeds = []          # the real CLI cannot be given scaled constants
     trees = {}
     for t, errs in core.pmap(seed_sweep, [(n_chr, c, ctx.scratch, i, cfg) for i, c in enumerate(core.chunks(seeds, core.NCPU))]):
         trees.update(t)
@@ -319,7 +337,7 @@ def run(ctx):
     quick = ctx.tier == "quick"
     n_chr = 3 if quick else 4
     tot = dict(states=0, runs=0, seeds=0, schedules=0, modes=0, gorders=0, ncp=0, nperm=0)
-    cfgs = [0, 1] if quick else [0, 1, 2]
+    cfgs = [0, 1, 3] if quick else [0, 1, 2, 3]
     for cfg in cfgs:
         explore_config(ctx, cfg, n_chr, quick, tot)
     parts = tot["parts"]
